@@ -94,6 +94,11 @@ func (g *G) intOrd(d int) Expr {
 			l.Elems = append(l.Elems, g.intOrd(d-1))
 		}
 		idx := int64(g.R.Intn(n + 1)) // sometimes out of range: fails after all operands ran
+		if g.R.Intn(5) == 0 {
+			// a nil map as the container: the index operand is still evaluated, the result is nil
+			g.feat("index-of-nil-map")
+			return &Coalesce{L: &Index{X: &Name{N: "nm"}, I: &Call{Fn: "pv", Args: []Expr{&IntLit{V: g.probeID()}, &StrLit{V: "k" + strconv.Itoa(g.R.Intn(3))}}}}, R: g.intOrd(d - 1)}
+		}
 		if g.R.Intn(2) == 0 {
 			return &Index{X: l, I: &Call{Fn: "pv", Args: []Expr{&IntLit{V: g.probeID()}, &IntLit{V: idx}}}}
 		}
